@@ -1,6 +1,6 @@
 (* C13 - Mapping aggregation preserves the address-space picture.   Property theorems only. *)
 From Coq Require Import List NArith.
-From MDW Require Import Maps MapsProofs MapsProofs2.
+From MDW Require Import Maps MapsProofs MapsProofs2 MapsJudge MapsJudgeProofs.
 Import ListNotations.
 Local Open Scope N_scope.
 
@@ -30,6 +30,22 @@ Theorem C13_gate_named : forall gate g m f segs,
   gate = Some g -> RunOf3 gate m f segs -> m_start m = g -> is_path (l_name f) = false -> m_name m = gate_name.
 Proof. exact gate_named. Qed.
 Print Assumptions C13_gate_named.
+
+(* The check applies the executable statement c13_holds_b to the mapping list the IMPLEMENTATION derived.
+   Whenever it answers true - for any list, not only one the model computes - the lines split into
+   consecutive runs, one per mapping, each mapping the hull of its non-empty contiguous run, the list is
+   ascending without overlap, and every line lies inside one of the mappings. *)
+Theorem C13_judge_sound : forall gate ms ls,
+  c13_holds_b gate ls ms = true ->
+  exists runs, concat runs = ls /\ Forall2 HullOf ms runs /\ ordered ms.
+Proof. exact judge_sound. Qed.
+Print Assumptions C13_judge_sound.
+
+Theorem C13_judge_covers : forall gate ms ls l,
+  c13_holds_b gate ls ms = true -> In l ls ->
+  exists m, In m ms /\ m_start m <= l_start l /\ l_end l <= m_end m.
+Proof. exact judge_covers. Qed.
+Print Assumptions C13_judge_covers.
 
 (* hypotheses are satisfiable, and a merge actually happens *)
 Example C13_nonvacuous :
